@@ -120,7 +120,14 @@ func HostileExtension(r *Rng, c *Chain, v *ValKeys, honest []byte) []byte {
 		bz, _ := json.Marshal(ext)
 		return bz
 	}
-	switch r.Pick(14) {
+	switch r.Pick(17) {
+	case 14:
+		// initial signatures that are too SHORT (the size check of VerifyVoteExtension only has an upper bound)
+		ext.InitialSignature = app.InitialSignature{SignatureA: junk(1 + r.Pick(63)), SignatureB: junk(64)}
+	case 15:
+		ext.InitialSignature = app.InitialSignature{SignatureA: junk(64), SignatureB: junk(r.Pick(40))}
+	case 16:
+		ext.ValsetSignature = app.BridgeValsetSignature{Signature: junk(1 + r.Pick(63)), Timestamp: ext.ValsetSignature.Timestamp}
 	case 0:
 		return nil
 	case 1:
